@@ -575,10 +575,10 @@ func main() {
 		if *tier == "thorough" {
 			nURL, nRel = 1500000**scale, 500000**scale
 			h.urlExhaustive(5)
-			h.relExhaustive(5)
+			h.relExhaustive(4)
 			rep.Exhaustive = append(rep.Exhaustive,
 				"iriu.url: every string of length <= 5 over {a : / ? # [ ] @ % 2 0xC3}; every a://[x] with |x| <= 6 over {: 1 f . % 2}; every a://x with |x| <= 5 over {: 1 [ ] @ % /}",
-				"iriu.rel: 630 bases (10 scheme/authority shapes incl. upper-case scheme, userinfo, IPv6, non-ASCII and %-escaped host, empty authority, opaque x 7 paths incl. dot segments x {no, non-empty, empty} query x fragment) x every path of length <= 5 over {a b / . :} x 6 query/fragment suffixes")
+				"iriu.rel: 630 bases (10 scheme/authority shapes incl. upper-case scheme, userinfo, IPv6, non-ASCII and %-escaped host, empty authority, opaque x 7 paths incl. dot segments x {no, non-empty, empty} query x fragment) x every path of length <= 4 over {a b / . :} x 6 query/fragment suffixes")
 		} else {
 			h.urlExhaustive(3)
 			h.relExhaustive(2)
